@@ -8,28 +8,38 @@
 (*   DrainBegin (accepting := FALSE, cancel periodic timers) ; DrainOk | DrainTimeout (restores accepting)         *)
 (*   Stop        running := FALSE, final Collect, join                                                             *)
 (* UseCancelToken / ClearAcceptingOnStop = TRUE is the repaired code; FALSE the original (self-tests).             *)
+(*   Reset / Restart   reset() on the stopped service clears records, periodic entries and the heap and lets the   *)
+(*               identifiers start again at 1; start() runs it again.  Due-ness is what the CODE tests: a heap     *)
+(*               item (code id, deadline) whose deadline has passed and whose code id names a live record - the    *)
+(*               item is matched by id ONLY, stale items of cancelled timers are skipped lazily.  With             *)
+(*               ResetClearsHeap = FALSE (self-test) a stale item survives the reset and matches the first new     *)
+(*               timer that gets its id: that timer fires at the old deadline.  MaxCycles bounds the restarts.     *)
 EXTENDS Naturals, Sequences, FiniteSets, TLC
 
-CONSTANTS Ids, PerIds, Delays, MaxTime, UseCancelToken, ClearAcceptingOnStop
+CONSTANTS Ids, PerIds, Delays, MaxTime, UseCancelToken, ClearAcceptingOnStop, ResetClearsHeap, MaxCycles
 
-VARIABLES now, rec, per, ready, running, accepting, state, cancelledTrue, starts, dlOf, late, lateAccepted, drainTO
-vars == <<now, rec, per, ready, running, accepting, state, cancelledTrue, starts, dlOf, late, lateAccepted, drainTO>>
+VARIABLES now, rec, per, ready, running, accepting, state, cancelledTrue, starts, dlOf, late, lateAccepted, drainTO,
+          cid, nextCid, heap, cycles     \* code id of each model timer, next code id, heap items [cid, dl], restarts so far
+vars == <<now, rec, per, ready, running, accepting, state, cancelledTrue, starts, dlOf, late, lateAccepted, drainTO, cid, nextCid, heap, cycles>>
 \* rec : id -> [dl, canc]   (live records)      per : id -> [itv, next]  (live periodic entries)
 \* ready : sequence of [id, k] collected but not started      starts : set of [id, k, t, afterCancel]
 
 Init == /\ now = 0 /\ rec = <<>> /\ per = <<>> /\ ready = <<>> /\ running = TRUE /\ accepting = TRUE
         /\ state = "Running" /\ cancelledTrue = {} /\ starts = {} /\ dlOf = <<>> /\ late = FALSE /\ lateAccepted = FALSE /\ drainTO = FALSE
+        /\ cid = <<>> /\ nextCid = 1 /\ heap = {} /\ cycles = 0
 
 Fresh(i) == i \notin DOMAIN dlOf
 Schedule(i, d) == /\ i \in Ids \ PerIds /\ Fresh(i) /\ accepting /\ state = "Running"
                   /\ rec' = rec @@ (i :> [dl |-> now + d, canc |-> FALSE])
                   /\ dlOf' = dlOf @@ (i :> [dl |-> now + d, itv |-> 0])
-                  /\ UNCHANGED <<now, per, ready, running, accepting, state, cancelledTrue, starts, late, lateAccepted, drainTO>>
+                  /\ cid' = cid @@ (i :> nextCid) /\ nextCid' = nextCid + 1 /\ heap' = heap \cup {[cid |-> nextCid, dl |-> now + d]}
+                  /\ UNCHANGED <<now, per, ready, running, accepting, state, cancelledTrue, starts, late, lateAccepted, drainTO, cycles>>
 SchedulePeriodic(i, d) == /\ i \in PerIds /\ Fresh(i) /\ d > 0 /\ accepting /\ state = "Running"
                           /\ rec' = rec @@ (i :> [dl |-> now + d, canc |-> FALSE])
                           /\ per' = per @@ (i :> [itv |-> d, next |-> now + d])
                           /\ dlOf' = dlOf @@ (i :> [dl |-> now + d, itv |-> d])
-                          /\ UNCHANGED <<now, ready, running, accepting, state, cancelledTrue, starts, late, lateAccepted, drainTO>>
+                          /\ cid' = cid @@ (i :> nextCid) /\ nextCid' = nextCid + 1 /\ heap' = heap \cup {[cid |-> nextCid, dl |-> now + d]}
+                          /\ UNCHANGED <<now, ready, running, accepting, state, cancelledTrue, starts, late, lateAccepted, drainTO, cycles>>
 
 Drop(f, i) == [j \in DOMAIN f \ {i} |-> f[j]]
 \* cancel(id): true iff a non-cancelled record or a periodic entry exists
@@ -40,13 +50,14 @@ Cancel(i) == /\ i \in DOMAIN dlOf /\ i \notin cancelledTrue
                 /\ rec' = IF i \in DOMAIN rec THEN [rec EXCEPT ![i].canc = TRUE] ELSE rec
                 /\ per' = IF inPer THEN Drop(per, i) ELSE per
                 /\ cancelledTrue' = cancelledTrue \cup {i}
-             /\ UNCHANGED <<now, ready, running, accepting, state, starts, dlOf, late, lateAccepted, drainTO>>
+             /\ UNCHANGED <<now, ready, running, accepting, state, starts, dlOf, late, lateAccepted, drainTO, cid, nextCid, heap, cycles>>
 
 Tick == /\ now < MaxTime /\ now' = now + 1
-        /\ UNCHANGED <<rec, per, ready, running, accepting, state, cancelledTrue, starts, dlOf, late, lateAccepted, drainTO>>
+        /\ UNCHANGED <<rec, per, ready, running, accepting, state, cancelledTrue, starts, dlOf, late, lateAccepted, drainTO, cid, nextCid, heap, cycles>>
 
 \* collectDueLocked(now) - only when the previous batch has been run (the loop is sequential)
-Due == {i \in DOMAIN rec : rec[i].dl <= now}
+\* what the code tests: some heap item with this record's code id is due (matched by id only)
+Due == {i \in DOMAIN rec : \E h \in heap : h.cid = cid[i] /\ h.dl <= now}
 SeqOf(S) == LET RECURSIVE go(_)
                 go(T) == IF T = {} THEN <<>> ELSE LET m == CHOOSE x \in T : \A y \in T : rec[x].dl < rec[y].dl \/ (rec[x].dl = rec[y].dl /\ x <= y)
                                                      IN <<m>> \o go(T \ {m})
@@ -59,7 +70,8 @@ Collect == /\ ready = <<>> /\ Due # {} /\ state # "Stopped"
                  /\ rec' = [i \in (DOMAIN rec \ Due) \cup rearm |->
                               IF i \in rearm THEN [dl |-> per[i].next + per[i].itv, canc |-> FALSE] ELSE rec[i]]
                  /\ per' = [i \in DOMAIN per |-> IF i \in rearm THEN [per[i] EXCEPT !.next = @ + per[i].itv] ELSE per[i]]
-           /\ UNCHANGED <<now, running, accepting, state, cancelledTrue, starts, dlOf, late, lateAccepted, drainTO>>
+                 /\ heap' = {h \in heap : h.dl > now} \cup {[cid |-> cid[i], dl |-> per[i].next + per[i].itv] : i \in rearm}
+           /\ UNCHANGED <<now, running, accepting, state, cancelledTrue, starts, dlOf, late, lateAccepted, drainTO, cid, nextCid, cycles>>
 
 \* safeRun(head of the batch)
 Start == /\ ready # <<>>
@@ -68,30 +80,40 @@ Start == /\ ready # <<>>
             starts' = IF skip THEN starts
                       ELSE starts \cup {[id |-> h.id, k |-> h.k, t |-> now, afterCancel |-> h.id \in cancelledTrue]}
          /\ ready' = Tail(ready)
-         /\ UNCHANGED <<now, rec, per, running, accepting, state, cancelledTrue, dlOf, late, lateAccepted, drainTO>>
+         /\ UNCHANGED <<now, rec, per, running, accepting, state, cancelledTrue, dlOf, late, lateAccepted, drainTO, cid, nextCid, heap, cycles>>
 
 \* drain(): cancels periodic timers, waits for the rest; a timed-out drain restores accepting
 DrainBegin == /\ state = "Running" /\ state' = "Draining" /\ accepting' = FALSE
               /\ per' = <<>>
               /\ rec' = [i \in DOMAIN rec |-> IF i \in DOMAIN per THEN [rec[i] EXCEPT !.canc = TRUE] ELSE rec[i]]
               /\ cancelledTrue' = cancelledTrue    \* (drain's own cancellations are not user-visible "cancel returned true")
-              /\ UNCHANGED <<now, ready, running, starts, dlOf, late, lateAccepted, drainTO>>
+              /\ UNCHANGED <<now, ready, running, starts, dlOf, late, lateAccepted, drainTO, cid, nextCid, heap, cycles>>
 DrainTimeout == /\ state = "Draining" /\ running /\ state' = "Running" /\ accepting' = TRUE /\ drainTO' = TRUE
-                /\ UNCHANGED <<now, rec, per, ready, running, cancelledTrue, starts, dlOf, late, lateAccepted>>
+                /\ UNCHANGED <<now, rec, per, ready, running, cancelledTrue, starts, dlOf, late, lateAccepted, cid, nextCid, heap, cycles>>
 \* stop(): (after a drain attempt) running := FALSE; the loop does a final Collect/Start and exits; join
 \* (stop() from Running always drains first: it proceeds when that drain completed or timed out)
 Stop == /\ (state = "Draining" \/ (state = "Running" /\ drainTO)) /\ running
         /\ running' = FALSE
         /\ accepting' = IF ClearAcceptingOnStop THEN FALSE ELSE accepting
-        /\ UNCHANGED <<now, rec, per, ready, state, cancelledTrue, starts, dlOf, late, lateAccepted, drainTO>>
+        /\ UNCHANGED <<now, rec, per, ready, state, cancelledTrue, starts, dlOf, late, lateAccepted, drainTO, cid, nextCid, heap, cycles>>
 Joined == /\ ~running /\ state # "Stopped" /\ ready = <<>> /\ Due = {}
           /\ state' = "Stopped"
-          /\ UNCHANGED <<now, rec, per, ready, running, accepting, cancelledTrue, starts, dlOf, late, lateAccepted, drainTO>>
+          /\ UNCHANGED <<now, rec, per, ready, running, accepting, cancelledTrue, starts, dlOf, late, lateAccepted, drainTO, cid, nextCid, heap, cycles>>
 \* scheduleAfter on the stopped service
 LateSchedule == /\ state = "Stopped" /\ ~late /\ late' = TRUE /\ lateAccepted' = accepting
-                /\ UNCHANGED <<now, rec, per, ready, running, accepting, state, cancelledTrue, starts, dlOf, drainTO>>
+                /\ UNCHANGED <<now, rec, per, ready, running, accepting, state, cancelledTrue, starts, dlOf, drainTO, cid, nextCid, heap, cycles>>
 
-Next == \/ \E i \in Ids, d \in Delays : Schedule(i, d) \/ SchedulePeriodic(i, d)
+\* reset() (Stopped -> Reset) and start() (Reset -> Running)
+Reset == /\ state = "Stopped" /\ cycles < MaxCycles
+         /\ state' = "Reset" /\ rec' = <<>> /\ per' = <<>> /\ nextCid' = 1
+         /\ heap' = (IF ResetClearsHeap THEN {} ELSE heap)
+         /\ UNCHANGED <<now, ready, running, accepting, cancelledTrue, starts, dlOf, late, lateAccepted, drainTO, cid, cycles>>
+Restart == /\ state = "Reset"
+           /\ state' = "Running" /\ running' = TRUE /\ accepting' = TRUE /\ drainTO' = FALSE /\ cycles' = cycles + 1
+           /\ UNCHANGED <<now, rec, per, ready, cancelledTrue, starts, dlOf, late, lateAccepted, cid, nextCid, heap>>
+
+Next == \/ Reset \/ Restart
+        \/ \E i \in Ids, d \in Delays : Schedule(i, d) \/ SchedulePeriodic(i, d)
         \/ \E i \in Ids : Cancel(i)
         \/ Tick \/ Collect \/ Start \/ DrainBegin \/ DrainTimeout \/ Stop \/ Joined \/ LateSchedule
 Spec == Init /\ [][Next]_vars
